@@ -27,6 +27,13 @@ using L_V7 = List<D<P, sz, 8>, D<V, Trk>, D<P, u8>>;
 // an over-aligned VaryingSize parameter in the middle: padding in front of the span even when it is empty
 using L_V8 = List<D<P, sz, 8>, D<V, f32, 16>, D<P, u8>>;
 using L_V9 = List<D<P, u8>, D<V, Trk, 8>, D<P, u8>>;
+// over-aligned FIRST parameter without VaryingSize: the element start itself has to be aligned (stride != size)
+using L_P6 = List<D<P, u32, 8>, D<P, u8>>;
+using L_F7 = List<D<P, u16, 8>, D<F, f32>>;
+// std::string with small-string contents (self-referential objects)
+using L_P7 = List<D<P, Str>, D<P, u8>>;
+using L_F8 = List<D<F, Str>, D<P, u32>>;
+using L_V11 = List<D<P, sz, 8>, D<V, Str>, D<P, Str>>;
 // non-trivial copy constructor only (trivial move and destructor)
 using L_P5 = List<D<P, Cpy>, D<P, u8>>;
 using L_F6 = List<D<F, Cpy>, D<P, u32>>;
